@@ -2,7 +2,7 @@
 from ..core import hx
 from . import _plan
 ID = "C15"
-PROPS = ["F1Verif.Props.C15", "F1Verif.Props.C15Run", "F1Verif.Props.FactsC15", "F1Verif.Props.RefineC15", "F1Verif.Props.RefineC15P", "F1Verif.Props.RefineC15W", "F1Verif.Props.RefineC15B", "F1Verif.Props.RefineC05U"]
+PROPS = ["F1Verif.Props.C15", "F1Verif.Props.C15Run", "F1Verif.Props.FactsC15", "F1Verif.Props.RefineC15", "F1Verif.Props.RefineC15P", "F1Verif.Props.RefineC15W", "F1Verif.Props.RefineC15B", "F1Verif.Props.RefineC05U", "F1Verif.Props.RefineC15F"]
 ALSO = ["F1Verif.Props.C14"]
 RULE = ("engine A: structured config files (1-6 stages of every mode, fields taken from the stage or omitted and inherited "
         "from the default section, stage and default parameters) rendered to YAML for the real ParseConfigFile with restart "
